@@ -36,7 +36,8 @@ pub fn gen(seed: u64, tier: Tier) -> ScenarioSpec {
     if live {
         spec.api = Api::Incremental;
         if rng.chance(7, 10) {
-            spec.live = Some(gen_live(&mut rng, len, 5));
+            spec.live = Some(gen_live(&mut rng, len, 8));
+            spec.knobs.insert("resume".into(), 1);
         }
         spec.knobs.insert("recheck_every".into(), *rng.pick(&[0i64, 11, 60]));
     }
